@@ -98,6 +98,9 @@ type flashApp struct {
 	aInput   map[string]string // what handler A's own Bind saw (the data WithInput attaches)
 	lookKeys []string
 	pathB    string
+	// method of the requests that follow a redirect: GET, or - after 307/308 - the method of the
+	// request that was redirected, repeated with a body
+	followMethod string
 }
 
 func buildFlashApp(spec *flashSpec, lookKeys []string) *flashApp {
@@ -164,8 +167,7 @@ func buildFlashApp(spec *flashSpec, lookKeys []string) *flashApp {
 		return r.To(spec.b())
 	}
 	for _, p := range flashPathsA[:3] {
-		app.Get(p, a)
-		app.Post(p, a)
+		app.All(p, a)
 	}
 	app.Get("/warm", func(c fiber.Ctx) error { return c.SendString("warm") })
 	observe := func(c fiber.Ctx) {
@@ -203,9 +205,9 @@ func buildFlashApp(spec *flashSpec, lookKeys []string) *flashApp {
 		}
 		return c.SendString("b")
 	}
-	app.Get("/users/:id/list", b).Name("target-param")
+	app.All("/users/:id/list", b).Name("target-param")
 	for _, p := range flashPathsB[:3] {
-		app.Get(p, b).Name("target:" + p)
+		app.All(p, b).Name("target:" + p)
 	}
 	for i, p := range flashPathsMid {
 		i := i
@@ -240,7 +242,11 @@ func (fa *flashApp) serveB(e *ev.Env, c *ev.Case, cookie []byte, hasCookie bool)
 func (fa *flashApp) deliverInProcess(e *ev.Env, c *ev.Case, path string, cookie []byte) (ran, panicked bool) {
 	*fa.rep = bReport{}
 	var req fasthttp.Request
-	head := "GET " + path + " HTTP/1.1\r\nHost: flash.example.com\r\nX-Carries: " + fiber.FlashCookieName + "\r\n\r\n"
+	method := fa.followMethod
+	if method == "" {
+		method = "GET"
+	}
+	head := method + " " + path + " HTTP/1.1\r\nHost: flash.example.com\r\nX-Carries: " + fiber.FlashCookieName + "\r\n\r\n"
 	if err := req.Read(bufio.NewReader(strings.NewReader(head))); err != nil {
 		return false, false
 	}
@@ -254,13 +260,21 @@ func (fa *flashApp) deliverInProcess(e *ev.Env, c *ev.Case, path string, cookie 
 
 func (fa *flashApp) serveAt(e *ev.Env, c *ev.Case, path string, cookie []byte, hasCookie bool) (rs []*strict.Response, perr *strict.ParseError, out []byte, panicked bool) {
 	*fa.rep = bReport{}
-	req := []byte("GET " + path + " HTTP/1.1\r\nHost: flash.example.com\r\n")
+	method := fa.followMethod
+	if method == "" {
+		method = "GET"
+	}
+	req := []byte(method + " " + path + " HTTP/1.1\r\nHost: flash.example.com\r\n")
 	if hasCookie {
 		req = append(req, "Cookie: "+fiber.FlashCookieName+"="...)
 		req = append(req, cookie...)
 		req = append(req, "\r\n"...)
 	}
-	req = append(req, "\r\n"...)
+	if method != "GET" && method != "HEAD" {
+		req = append(req, "Content-Type: text/plain\r\nContent-Length: 8\r\n\r\nrepeated"...)
+	} else {
+		req = append(req, "\r\n"...)
+	}
 	if e.Quick() || e.Only != "" || (len(cookie) > 0 && cookie[0] >= 0xdc) {
 		e.Journal("B " + hexOf(req))
 	}
@@ -634,6 +648,10 @@ func runFlash(e *ev.Env) {
 	script("consumer-panics-recovered", &flashSpec{msgs: []fmsg{{Key: "notice", Value: "saved", Level: 'A'}}, noLevel: []bool{false}, bMode: "panic-recovered"}, getA)
 	script("old-input-form-with-charset", &flashSpec{withInput: true},
 		[]byte("POST /a HTTP/1.1\r\nHost: flash.example.com\r\nContent-Type: application/x-www-form-urlencoded; charset=UTF-8\r\nContent-Length: 9\r\n\r\nname=John"))
+	script("status-307-post-followed-by-post", &flashSpec{msgs: []fmsg{{Key: "notice", Value: "saved", Level: 'A'}}, noLevel: []bool{false}, status: 307},
+		[]byte("POST /a HTTP/1.1\r\nHost: flash.example.com\r\nContent-Length: 0\r\n\r\n"))
+	script("status-308-put-followed-by-put", &flashSpec{msgs: []fmsg{{Key: "notice", Value: "saved", Level: 'A'}}, noLevel: []bool{false}, status: 308},
+		[]byte("PUT /a HTTP/1.1\r\nHost: flash.example.com\r\nContent-Length: 0\r\n\r\n"))
 	script("redirect-route", &flashSpec{msgs: []fmsg{{Key: "notice", Value: "saved", Level: 'A'}}, noLevel: []bool{false}, kind: "route"}, getA)
 	script("redirect-back-referer", &flashSpec{msgs: []fmsg{{Key: "notice", Value: "saved", Level: 'A'}}, noLevel: []bool{false}, kind: "back-referer"}, getA)
 	e.Corpus("chained-redirect-two-hops", func(c *ev.Case) {
@@ -724,6 +742,16 @@ func runFlash(e *ev.Env) {
 				}
 			}
 			reqA = inputRequest(r, spec.pathA, same)
+		}
+		// the redirected request is not always a GET (forms are PUT/PATCH too; an API call with
+		// its data in the query may be any method)
+		switch {
+		case bytes.HasPrefix(reqA, []byte("POST ")):
+			reqA = append([]byte(gen.Pick(r, []string{"POST", "POST", "PUT", "PATCH"})), reqA[4:]...)
+		case bytes.HasPrefix(reqA, []byte("GET ")) && r.Chance(1, 2):
+			m := gen.Pick(r, []string{"POST", "PUT", "PATCH", "DELETE"})
+			reqA = append([]byte(m), reqA[3:]...)
+			reqA = bytes.Replace(reqA, []byte("\r\n\r\n"), []byte("\r\nContent-Length: 0\r\n\r\n"), 1)
 		}
 		flashScript(e, c, spec, reqA)
 	})
@@ -1073,6 +1101,12 @@ func flashScript(e *ev.Env, c *ev.Case, spec *flashSpec, reqA []byte) {
 		look = append(look, m.Key)
 	}
 	fa := buildFlashApp(spec, look)
+	// a client follows 301/302/303 with GET, 307/308 with the method it was redirected on
+	if st := spec.wantStatus(); st == 307 || st == 308 {
+		if i := bytes.IndexByte(reqA, ' '); i > 0 {
+			fa.followMethod = string(reqA[:i])
+		}
+	}
 	if spec.kind == "back-referer" {
 		host := []byte("Host: flash.example.com\r\n")
 		reqA = bytes.Replace(reqA, host, append(append([]byte(nil), host...), "Referer: "+spec.b()+"\r\n"...), 1)
